@@ -224,6 +224,14 @@ class Check:
         cmd = ["lake", "build"] + modules + [self.exe_name()]
         self.cov["checker_cmd"] = "cd lean && " + " ".join(cmd) + " && lake env lean .work/audit_%s.lean (#print axioms) [+ leanchecker in thorough tier]" % self.pid
         rc, out, err = run_cmd(cmd, cwd=LEAN_DIR, timeout=3000)
+        if getattr(self, "_gen_text", None) is not None:
+            try:
+                now = open(os.path.join(ROOT, GEN_FILE)).read()
+            except OSError:
+                now = None
+            if now != self._gen_text:
+                raise InfraError("lean/PrecondVerif/Gen/Src.lean was rewritten during this run by a check of a different source "
+                                 "tree (concurrent runs against different trees are not supported); re-run")
         if rc != 0:
             self.stage_failures.append({"stage": "lean", "name": "lake build " + " ".join(modules) + lean_error_sites(out + err),
                                         "detail": (out + err)[-3000:]})
@@ -467,34 +475,54 @@ GEN_FILE = os.path.join("lean", "PrecondVerif", "Gen", "Src.lean")
 
 def gen_stage(ctx):
     """Second tie between model and code: re-run the Python -> Lean translator (harness/py2lean.py) on the source
-    that is imported NOW and make lean/PrecondVerif/Gen/Src.lean equal to its output (atomic replace, only when the
-    text differs — several checks may do this concurrently and all produce the same text).  The bridge theorems of
+    that is imported NOW and make lean/PrecondVerif/Gen/Src.lean equal to its output.  The bridge theorems of
     Props/Gen.lean (built by `lean_stage(extra_props=("Gen",))`) are then re-checked by the kernel against what the
-    code says today.  Records `cov["generated_model"]`; a function the translator cannot handle is a stage failure."""
+    code says today.  Records `cov["generated_model"]`; a function the translator cannot handle is a stage failure.
+
+    Concurrency: the text is first written to a per-process temp file; Gen/Src.lean is replaced (os.replace, atomic,
+    under .work/gen.lock) only when the new text differs from the file that is there — in the normal case (text ==
+    committed text == file) nothing is written, so any number of checks of the SAME source tree may run at once.
+    If the text differs from the file it is replaced whether or not it equals the committed text (equal: a stale file
+    left by a run against another tree is restored; different: the source has changed).  Concurrent runs against
+    DIFFERENT source trees (e.g. a mutation worktree on PYTHONPATH next to a run on /repo) share this one file and are
+    NOT supported: `lean_stage` re-reads the file after the build and raises InfraError (exit 2, never a violation)
+    when it no longer holds the text this run generated."""
+    import fcntl
+    import hashlib
     from harness import py2lean
     t0 = time.time()
     text, info = py2lean.generate(repo_src())
     path = os.path.join(ROOT, GEN_FILE)
     os.makedirs(os.path.dirname(path), exist_ok=True)
+    tmp = os.path.join(WORK, f"gen_src.{os.getpid()}.lean")
+    with open(tmp, "w") as f:
+        f.write(text)
     try:
-        old = open(path).read()
-    except OSError:
-        old = None
-    rewritten = old != text
-    if rewritten:
-        tmp = f"{path}.{os.getpid()}.tmp"
-        with open(tmp, "w") as f:
-            f.write(text)
-        os.replace(tmp, path)
-    try:
-        tracked = subprocess.run(["git", "-C", ROOT, "ls-files", "--error-unmatch", GEN_FILE], capture_output=True, timeout=60).returncode == 0
-        differs = subprocess.run(["git", "-C", ROOT, "diff", "--quiet", "--", GEN_FILE], capture_output=True, timeout=60).returncode != 0
+        committed = subprocess.run(["git", "-C", ROOT, "show", "HEAD:" + GEN_FILE.replace(os.sep, "/")], capture_output=True,
+                                   text=True, timeout=60)
+        committed = committed.stdout if committed.returncode == 0 else None
     except Exception:  # noqa: BLE001
-        tracked, differs = None, None
+        committed = None
+    with open(os.path.join(WORK, "gen.lock"), "w") as lock:
+        fcntl.flock(lock, fcntl.LOCK_EX)
+        try:
+            old = open(path).read()
+        except OSError:
+            old = None
+        rewritten = old != text
+        if rewritten:
+            tmp2 = f"{path}.{os.getpid()}.tmp"      # same directory, so that os.replace is atomic
+            os.replace(tmp, tmp2)
+            os.replace(tmp2, path)
+        else:
+            os.unlink(tmp)
+    ctx._gen_text = text
+    tracked = committed is not None
+    differs = tracked and committed != text
     ctx.cov["generated_model"] = {
         "file": GEN_FILE, "translator": "harness/py2lean.py", "source_dir": repo_src(),
-        "functions": info, "text_sha256": __import__("hashlib").sha256(text.encode()).hexdigest(),
-        "text_changed_vs_committed": (differs if tracked else ("untracked" if tracked is False else None)),
+        "functions": info, "text_sha256": hashlib.sha256(text.encode()).hexdigest(),
+        "text_changed_vs_committed": (differs if tracked else "untracked"),
         "file_rewritten_by_this_run": rewritten, "seconds": round(time.time() - t0, 3),
     }
     for r in info:
